@@ -328,7 +328,13 @@ func main() {
 	in := flag.String("in", "", "cases")
 	out := flag.String("out", "", "results")
 	stats := flag.String("stats", "", "stats")
+	sampleN := flag.Int("sample", 300, "sqlshape: lines also judged by TLC")
+	seed := flag.Int64("seed", 1, "seed")
 	flag.Parse()
+	if *mode == "sqlshape" {
+		modeSQLShape(*in, *out, *stats, *sampleN, *seed)
+		return
+	}
 	f, err := os.Open(*in)
 	if err != nil {
 		fmt.Fprintln(os.Stderr, err)
